@@ -489,10 +489,64 @@ def c11_scale(case, stats, log):
         stats.count("scale_total_ge_2^32")
 
 
+NARROW_CASES = [
+    {"kind": "narrow", "word": 1, "n": 255}, {"kind": "narrow", "word": 1, "n": 256},
+    {"kind": "narrow", "word": 2, "n": 65535}, {"kind": "narrow", "word": 2, "n": 65536},
+    {"kind": "narrow", "word": 1, "n": 7}, {"kind": "narrow", "word": 8, "n": 300},
+]
+
+
+def c11_narrow(case, stats, log):
+    """The saver is handed row ids in another documented word size (1, 2 or 8 bytes).  Every row id fits; the
+    COUNT of an entry may not (256 ids under 1-byte words).  Then save() may refuse, but it must never return
+    normally having written a file that does not say what was saved."""
+    prop = "C11"
+    IndxIO = catii_indxio()
+    word, n = case["word"], case["n"]
+    dt = numpy.dtype("u%d" % word)
+    rows = list(range(n))
+    entries = {(1,): numpy.array(rows, dtype=dt), (2,): numpy.array([], dtype=dt)}
+    with disk.SimDisk() as d:
+        f = d.writer("raw")
+        try:
+            with warnings.catch_warnings():
+                warnings.simplefilter("ignore")
+                IndxIO.save(f, entries, 0, dt)
+            f.flush()
+        except Exception as e:
+            stats.count("narrow_word_save_refused")
+            log.add("narrow", word, n, type(e).__name__)
+            if n < (1 << (8 * word)):
+                raise Violation(prop, "save-raised:" + type(e).__name__, "save(rowid word %d)" % word,
+                                "%d row ids under %d-byte words fit, but save raised %r" % (n, word, e))
+            return
+        finally:
+            try:
+                f.close()
+            except Exception:
+                pass
+        data = d.content()
+    log.add("narrow", word, n, len(data))
+    want = [((1,), rows), ((2,), [])]
+    try:
+        dec, dcommon, _, rw = refcodec.decode(data)
+    except Exception as e:
+        raise Violation(prop, "independent-decoder-rejects", "save(rowid word %d)" % word,
+                        "save returned normally for %d row ids under %d-byte words but the file is not the documented "
+                        "layout: %r" % (n, word, e))
+    if dec != want or dcommon != 0 or rw != word:
+        raise Violation(prop, "independent-decoder-differs", "save(rowid word %d)" % word,
+                        "save returned normally for %d row ids under %d-byte words but the file says %d/%d ids (word %d)"
+                        % (n, word, len(dec[0][1]) if dec else -1, len(dec[1][1]) if len(dec) > 1 else -1, rw))
+    stats.count("narrow_word_files_checked")
+
+
 def c11_execute(case, stats, log):
     prop = "C11"
     if case["kind"] == "scale":
         return c11_scale(case, stats, log)
+    if case["kind"] == "narrow":
+        return c11_narrow(case, stats, log)
     case = expand(case)
     want_entries = [(tuple(k), v) for k, v in case["entries"]]
     del HELD[:]
@@ -565,6 +619,8 @@ def c11_execute(case, stats, log):
 def c11_run(base_seed, idx, stats, opts):
     if idx < len(SCALE_CASES):
         case = {"kind": "scale", "lengths": SCALE_CASES[idx]}
+    elif idx < len(SCALE_CASES) + len(NARROW_CASES):
+        case = dict(NARROW_CASES[idx - len(SCALE_CASES)])
     else:
         rng = core.rng_for(base_seed, "storage", idx)
         case = pick_files(rng, opts.get("tier", "quick"))
@@ -947,6 +1003,8 @@ def minimise(prop, case, signature):
             out.append(dict(small, entries=ents))
         return {"kind": "multi", "files": out}
     case = expand(case)
+    if case["kind"] == "narrow":
+        return case
     if case["kind"] != "entries":
         best = dict(case)
         lens = list(best["lengths"])
